@@ -304,6 +304,33 @@ class StereoCondensedReactionGraph(StereoMolGraph, CondensedReactionGraph):
 
         return relabeled_scrg
 
+    def subgraph(self, atoms: Iterable[AtomId]) -> Self:
+        """Returns a subgraph of the graph with the given atoms, the stereo
+        information and the stereo changes that only involve these atoms
+
+        :param atoms: Atoms to be used for the subgraph
+        :return: Subgraph
+        """
+        atoms = tuple(atoms)  # atoms may be a one-shot iterator
+        new_graph = super().subgraph(atoms)
+        atoms_set = set(atoms)
+        atoms_set.add(None)  # placeholder for a missing ligand
+
+        for changes, new_changes in (
+            (self._atom_stereo_change, new_graph._atom_stereo_change),
+            (self._bond_stereo_change, new_graph._bond_stereo_change),
+        ):
+            for key, change_dict in changes.items():
+                new_change_dict = change_dict.__class__()
+                for stereo_change, stereo in change_dict.items():
+                    if stereo is not None and all(
+                        atom in atoms_set for atom in stereo.atoms
+                    ):
+                        new_change_dict[stereo_change] = stereo
+                if new_change_dict:
+                    new_changes[key] = new_change_dict
+        return new_graph
+
     def reactant(self, keep_attributes: bool = True) -> StereoMolGraph:
         """
         Returns the reactant of the reaction
